@@ -124,6 +124,8 @@ pub fn specs(tier: &str) -> Vec<ExpSpec> {
     for ft in [FatType::Fat12, FatType::Fat16, FatType::Fat32] {
         v.push(ExpSpec::new(vol::tiny_low(ft, 2, 16), alphabet(512, false), if th { 5 } else { 4 }).with_prefix(prefix()));
     }
+    // FAT32 cluster numbers above 0xFFFF
+    v.push(ExpSpec::new(vol::t32_high(), alphabet(512, false), if th { 4 } else { 3 }).with_prefix(prefix()));
     // the highest cluster numbers of FAT12 / FAT16 (values just below the reserved range of the width)
     for (w, name) in [(12u8, "m12-top"), (16, "m16-top")] {
         v.push(ExpSpec::new(crate::c10::mk_top(w, 8, name), alphabet(512, false), if th { 4 } else { 3 }).with_prefix(prefix()));
